@@ -888,6 +888,59 @@ fn main() {
         }
     }
 
+    // ---------------------------------------------------------------- deep nestings
+    // Blocks nested d deep at render time, the innermost one introduced by a child inside the block
+    // it overrides (one template can nest 39 blocks, the parser's limit; inheritance adds to that).
+    // The engine guards block rendering against recursion with a depth limit of 40 (blocks that
+    // render each other, family divergent-*): every depth up to that limit is a legal chain and
+    // renders; what happens beyond it is not judged. (Seeded change C04-13 counted the block being
+    // entered, so the 40th level failed.)
+    {
+        run.family(
+            Family::new("deep-nestings", 39, "d = 2..=40: a base with d-1 nested blocks b1..b(d-1), a child that overrides the innermost one and introduces block bd inside it: render of the child and render_block of its new block and of the outermost block"),
+            |item, acc: &mut Acc| {
+                let d = item as usize + 2;
+                let mut base = String::new();
+                for k in 1..d {
+                    base.push_str(&format!("{{% block b{k} %}}<{k}"));
+                }
+                for k in (1..d).rev() {
+                    base.push_str(&format!("{k}>{{% endblock b{k} %}}"));
+                }
+                let inner = d - 1;
+                let child = format!("{{% extends \"base\" %}}{{% block b{inner} %}}[X{{% block b{d} %}}Y{d}{{% endblock b{d} %}}X]{{% endblock b{inner} %}}");
+                let mut want = String::new();
+                for k in 1..inner {
+                    want.push_str(&format!("<{k}"));
+                }
+                want.push_str(&format!("[XY{d}X]"));
+                for k in (1..inner).rev() {
+                    want.push_str(&format!("{k}>"));
+                }
+                let tpls = vec![("base".to_string(), base), ("child".to_string(), child)];
+                let case = || json!({"templates": tpls.iter().map(|(n, s)| json!({"name": n, "source": s})).collect::<Vec<_>>(), "blocks_open_at_the_innermost_level": d});
+                let mut t = tera::Tera::default();
+                let added = engine::add_templates(&mut t, &tpls);
+                if !added.is_ok() {
+                    acc.violation("deep-nesting:refused", format!("registration failed: {}", added.show()), case);
+                    acc.case(true, "refused");
+                    return;
+                }
+                let ctx = tera::Context::new();
+                for (call, got, want) in [
+                    ("render(child)".to_string(), engine::render(&t, "child", &ctx), want.clone()),
+                    (format!("render_block(child, b{d})"), render_block_both(&t, "child", &format!("b{d}"), &ctx), format!("Y{d}")),
+                    ("render_block(child, b1)".to_string(), render_block_both(&t, "child", "b1", &ctx), want.clone()),
+                ] {
+                    if got.ok() != Some(want.as_str()) {
+                        acc.violation(format!("deep-nesting:{}", call.split('(').next().unwrap()), format!("{call} at nesting depth {d} gave {}, expected {want:?}", got.show()), case);
+                    }
+                    acc.case(true, if d >= 39 { "at-the-limit" } else { "below-the-limit" });
+                }
+            },
+        );
+    }
+
     // ---------------------------------------------------------------- registration orders
     let orders_family = |run: &mut Run, name: &str, space: &Space, l: usize, words: &str, name_perms: Vec<Vec<usize>>, count_canonical: bool, budget: Option<f64>| {
         if !wanted(name) {
